@@ -1,49 +1,41 @@
 #!/usr/bin/env python3
-"""run_seeds.py [seed-id ...]: the must-fail corpus. For every kept seeded change (all if none is named): apply its patch to
-/repo, run the quick check of its property (plus extra properties given in meta['also_check']), revert /repo, and record
-whether a VIOLATION was reported and by which obligations. Also runs each check once on the unchanged tree first is NOT done
-here (that is the regression run). Writes /verif/seeded/SUMMARY.md and SUMMARY.json. /repo must be clean."""
-import json, os, subprocess, sys, glob
+"""run_seeds.py [seed-id ...]: the must-fail corpus of independently seeded changes. Each kept change (/verif/seeded/<id>/patch.diff)
+is applied to a scratch copy of /repo's working tree (never to /repo) and the quick check of its property runs there.
+Writes /verif/seeded/SUMMARY.md and SUMMARY.json (merging when ids are given)."""
+import json, os, subprocess, sys, glob, shutil, tempfile
+from concurrent.futures import ThreadPoolExecutor
 env = dict(os.environ, GOFLAGS="-mod=mod", GOPROXY="off", GOSUMDB="off", GOTOOLCHAIN="local")
-def sh(cmd, cwd="/repo", timeout=1800):
-    p = subprocess.run(cmd, shell=True, cwd=cwd, env=env, capture_output=True, text=True, timeout=timeout)
-    return p.returncode, p.stdout + p.stderr
-assert sh("git status --porcelain")[1].strip() == "", "/repo not clean"
 ids = sys.argv[1:] or sorted(os.path.basename(os.path.dirname(p)) for p in glob.glob("/verif/seeded/*/patch.diff"))
-rows = []
-for sid in ids:
+def one(sid):
     d = f"/verif/seeded/{sid}"
     meta = json.load(open(f"{d}/meta.json"))
     props = meta.get("property")
     if isinstance(props, str): props = [props]
-    props = list(props or [sid.split("-")[0]]) + list(meta.get("also_check", []))
-    rc, o = sh(f"git apply --check {d}/patch.diff")
-    if rc != 0:
-        rows.append({"seed": sid, "applies": False, "note": "patch no longer applies to the current tree: " + o.strip()[:200]})
-        continue
-    sh(f"git apply {d}/patch.diff")
+    props = list(dict.fromkeys(list(props or [sid.split("-")[0]]) + list(meta.get("also_check", []))))
+    t = tempfile.mkdtemp(prefix="seedrun_")
     try:
-        brc, bo = sh("go build ./... 2>&1 | tail -3")
-        res = {"seed": sid, "applies": True, "builds": brc == 0 and "error" not in bo.lower(), "checks": {}}
-        for p in dict.fromkeys(props):
-            rc, o = sh(f"/verif/bin/govc check -property {p} -tier quick", cwd="/verif")
-            lines = [l.strip() for l in o.splitlines() if l.startswith("VIOLATION") or l.startswith("  obligation") or l.startswith("  UNBOUND")]
-            res["checks"][p] = {"exit": rc, "violation": any(l.startswith("VIOLATION") for l in lines),
-                                "by": [l[:220] for l in lines if not l.startswith("VIOLATION")][:4]}
+        subprocess.run(["rsync", "-a", "--exclude", ".git", "/repo/", t + "/"], check=True)
+        ap = subprocess.run(["git", "apply", f"{d}/patch.diff"], cwd=t, capture_output=True, text=True)
+        if ap.returncode != 0:
+            return {"seed": sid, "applies": False, "note": "patch no longer applies to the current tree: " + ap.stderr.strip()[:200]}
+        res = {"seed": sid, "applies": True, "checks": {}}
+        for p in props:
+            r = subprocess.run(["/verif/bin/govc", "check", "-property", p, "-tier", "quick", "-repo", t, "-scratch", "-workers", "6"], cwd="/verif", env=env, capture_output=True, text=True)
+            lines = [l.strip() for l in r.stdout.splitlines() if l.startswith("  obligation") or l.startswith("  UNBOUND")]
+            res["checks"][p] = {"violation": ("VIOLATION property=" + p) in r.stdout, "by": [l[:220] for l in lines][:4]}
         res["detected"] = any(c["violation"] for c in res["checks"].values())
-        rows.append(res)
+        return res
     finally:
-        sh("git checkout -- . && git clean -fdq -- . ':!*zz_contracts_verif.go'")
-    print(sid, "DETECTED" if rows[-1].get("detected") else "MISSED", flush=True)
-assert sh("git status --porcelain")[1].strip() == "", "/repo not clean after run"
+        shutil.rmtree(t)
+with ThreadPoolExecutor(max_workers=3) as ex:
+    rows = list(ex.map(one, ids))
+for r in rows: print(r["seed"], "n/a" if not r.get("applies") else ("DETECTED" if r.get("detected") else "MISSED"), flush=True)
 if sys.argv[1:] and os.path.exists("/verif/seeded/SUMMARY.json"):
-    prev = json.load(open("/verif/seeded/SUMMARY.json"))
-    new = {r["seed"]: r for r in rows}
-    rows = [new.pop(r["seed"], r) for r in prev] + list(new.values())
-    rows.sort(key=lambda r: r["seed"])
+    prev = json.load(open("/verif/seeded/SUMMARY.json")); new = {r["seed"]: r for r in rows}
+    rows = [new.pop(r["seed"], r) for r in prev] + list(new.values()); rows.sort(key=lambda r: r["seed"])
 json.dump(rows, open("/verif/seeded/SUMMARY.json", "w"), indent=1)
 with open("/verif/seeded/SUMMARY.md", "w") as f:
-    f.write("# Seeded changes against the current checks (written by tools/run_seeds.py)\n\n| seed | detected | first reporting obligation |\n|---|---|---|\n")
+    f.write("# Seeded changes against the current checks (written by tools/run_seeds.py; scratch copies, /repo untouched)\n\n| seed | reported | first reporting obligation |\n|---|---|---|\n")
     for r in rows:
         if not r.get("applies"):
             f.write(f"| {r['seed']} | n/a | {r['note']} |\n"); continue
